@@ -390,8 +390,21 @@ func mutateRecipe(s Src, r *ScopeRecipe) (*ScopeRecipe, string) {
 		}
 		return out, mark("kind-change")
 	case 2:
+		desc := "undeclared-property"
+		if s.Choose("mu.dropopt", 2) == 1 {
+			// the producer also lacks optional properties of the consumer: the property counts no longer tell
+			for i := 0; i < len(obj.Props); {
+				p := &obj.Props[i]
+				if !p.Required && len(p.RequiredIf) == 0 && len(p.RequiredIfNot) == 0 && !p.Disabled && !referencedByRules(obj, p.Name) {
+					obj.Props = append(obj.Props[:i:i], obj.Props[i+1:]...)
+					desc = "undeclared-property-with-optional-ones-absent"
+					continue
+				}
+				i++
+			}
+		}
 		obj.Props = append(obj.Props, PropRecipe{Name: "zz_extra", T: TypeRecipe{Kind: "string"}, Required: true})
-		return out, mark("undeclared-property")
+		return out, mark(desc)
 	case 3:
 		for i := range obj.Props {
 			if obj.Props[i].Required && !obj.Props[i].Disabled {
@@ -533,6 +546,20 @@ func mutateRecipe(s Src, r *ScopeRecipe) (*ScopeRecipe, string) {
 		}
 		return out, ":same"
 	}
+}
+
+// referencedByRules tells whether another property's presence rules name the property.
+func referencedByRules(o *ObjectRecipe, name string) bool {
+	for i := range o.Props {
+		for _, l := range [][]string{o.Props[i].RequiredIf, o.Props[i].RequiredIfNot, o.Props[i].Conflicts} {
+			for _, n := range l {
+				if n == name {
+					return true
+				}
+			}
+		}
+	}
+	return false
 }
 
 // reachableObjects returns the IDs of the objects the root object reaches structurally.
